@@ -167,7 +167,9 @@ class Ctx:
         cfg = cfg or module
         tag = tag or cfg
         md = self.path("md-%s-%d" % (tag, len(self.tlc_runs)))
-        cmd = ["java", "-XX:+UseParallelGC", "-XX:ParallelGCThreads=4", "-Xmx" + heap, "-Xss256m"]
+        jt = self.path("jtmp")       # TLC leaves an empty tlc-<n> directory in java.io.tmpdir on every run
+        os.makedirs(jt, exist_ok=True)
+        cmd = ["java", "-XX:+UseParallelGC", "-XX:ParallelGCThreads=4", "-Xmx" + heap, "-Xss256m", "-Djava.io.tmpdir=" + jt]
         if deque:
             cmd.append("-Dtlc2.tool.queue.IStateQueue=StateDeque")
         cmd += ["-cp", TLA_CP, "tlc2.TLC", "-workers", str(workers), "-metadir", md, "-seed", str(self.seed),
